@@ -7,6 +7,8 @@ package main
 
 import (
 	"fmt"
+	"github.com/TeaEntityLab/fpGo/v2/zzverif/vsched"
+	"math"
 	"reflect"
 	"sort"
 	"strings"
@@ -178,7 +180,14 @@ func (s *suite[T]) run() {
 			d = "nil list"
 		}
 		// ---- count / size parameters in [-3, len+3]
+		var counts []int
 		for c := -3; c <= n+3; c++ {
+			counts = append(counts, c)
+		}
+		if n <= 3 || n > 8 { // the extreme values of int with the short and the long lists
+			counts = append(counts, math.MinInt, math.MinInt+1, math.MinInt32, math.MaxInt32, math.MaxInt/2, math.MaxInt-1, math.MaxInt)
+		}
+		for _, c := range counts {
 			c := c
 			l := s.input(it.sy, it.nil)
 			var got []T
@@ -704,6 +713,68 @@ func mapsAndNumbers(r *lib.Report, evals, inputs *int64) {
 	}
 }
 
+// poison: every callback-taking helper, over a few lists, with a callback that panics at its k-th call.
+func poison(r *lib.Report, evals *int64) {
+	// probe: a few fixed calls with known answers, made right after every poisoned call
+	probe := func(after string) {
+		got := fmt.Sprint(fpgo.Distinct(3, 2, 1, 3, 7), fpgo.Distinct("a", "b", "a"), fpgo.Distinct(true, true),
+			fpgo.UniqBy(func(v int) int { return v % 10 }, 11, 12, 13, 14, 21), fpgo.UniqBy(func(v int) bool { return v%2 == 0 }, 1, 2, 3),
+			fpgo.UniqBy(func(v int) string { return fmt.Sprint(v % 2) }, 5, 6, 7),
+			fpgo.DistinctForInterface(1, 2, 1), fpgo.Dedupe(1, 1, 2), fpgo.Filter(func(v int, i int) bool { return v > 1 }, 1, 2, 3),
+			fpgo.Map(func(v int) int { return v * 2 }, 1, 2), len(fpgo.GroupBy(func(v int) int { return v % 2 }, 1, 2, 3)),
+			fpgo.Partition(func(v int) bool { return v > 1 }, 1, 2, 3), fpgo.SliceToMap(0, 1, 2), fpgo.Reduce(func(m, v int) int { return m + v }, 0, 1, 2, 3),
+			fpgo.Intersection([]int{1, 2, 2}, []int{2, 3}), fpgo.Minus([]int{1, 2, 3}, []int{3}), len(fpgo.Union([]int{1, 2}, []int{2, 3})))
+		const want = "[3 2 1 7] [a b] [true] [11 12 13 14] [1 2] [5 6] [1 2] [1 2] [2 3] [2 4] 2 [[2 3] [1]] map[1:0 2:0] 6 [2] [1 2] 3"
+		*evals++
+		if got != want {
+			r.Violation("C03|after-recovered-panic|wrong-result", fmt.Sprintf("after %s (recovered): the fixed probe calls return %s, want %s", after, got, want), map[string]interface{}{"after": after})
+		}
+	}
+	lists := [][]int{{0, 1, 2, 0, 1}, {2, 2, 1}, {0}}
+	for _, l := range lists {
+		for k := 1; k <= len(l); k++ {
+			n := 0
+			tick := func() {
+				n++
+				if n == k {
+					panic("poison")
+				}
+			}
+			calls := []func(){
+				func() { fpgo.Map(func(v int) int { tick(); return v }, l...) },
+				func() { fpgo.MapIndexed(func(v int, i int) int { tick(); return v }, l...) },
+				func() { fpgo.Filter(func(v int, i int) bool { tick(); return true }, l...) },
+				func() { fpgo.Reject(func(v int, i int) bool { tick(); return false }, l...) },
+				func() { fpgo.Reduce(func(m int, v int) int { tick(); return m + v }, 0, l...) },
+				func() { fpgo.DropWhile(func(v int) bool { tick(); return true }, l...) },
+				func() { fpgo.Partition(func(v int) bool { tick(); return true }, l...) },
+				func() { fpgo.GroupBy(func(v int) int { tick(); return v }, l...) },
+				func() { fpgo.UniqBy(func(v int) int { tick(); return v }, l...) },
+				func() { fpgo.Every(func(v int) bool { tick(); return true }, l...) },
+				func() { fpgo.Some(func(v int) bool { tick(); return false }, l...) },
+				func() { fpgo.Sort(func(a, b int) bool { tick(); return a < b }, append([]int{}, l...)) },
+			}
+			names := []string{"Map", "MapIndexed", "Filter", "Reject", "Reduce", "DropWhile", "Partition", "GroupBy", "UniqBy", "Every", "Some", "Sort"}
+			for ci, c := range calls {
+				n = 0
+				*evals++
+				lib.Catch(c)
+				probe(fmt.Sprintf("%s over %v whose callback panics at its call #%d", names[ci], l, k))
+			}
+		}
+	}
+	// a value that cannot be hashed, behind interface{}
+	for _, c := range []func(){
+		func() { fpgo.DistinctForInterface(1, []int{1}, 2) },
+		func() { fpgo.ExistsForInterface(1, 2, []int{1}) },
+		func() { fpgo.SliceToMapForInterface(true, 1, []int{1}, 2) },
+	} {
+		*evals++
+		lib.Catch(c)
+		probe("a ForInterface helper given a value that cannot be hashed")
+	}
+}
+
 func main() {
 	r := lib.NewReport("C03")
 	var evals, inputs int64
@@ -711,10 +782,26 @@ func main() {
 	if r.Tier == "thorough" {
 		maxLen = 5
 	}
-	(&suite[int]{r: r, tname: "int", sym: func(i int) int { return i }, sentinel: 99, evals: &evals, inputs: &inputs, maxLen: maxLen, long: true}).run()
-	(&suite[string]{r: r, tname: "string", sym: func(i int) string { return []string{"a", "b", ""}[i] }, sentinel: "SENTINEL", evals: &evals, inputs: &inputs, maxLen: maxLen - 1}).run()
-	(&suite[rec]{r: r, tname: "struct", sym: func(i int) rec { return rec{i, strings.Repeat("x", i)} }, sentinel: rec{99, "S"}, evals: &evals, inputs: &inputs, maxLen: maxLen - 1}).run()
-	mapsAndNumbers(r, &evals, &inputs)
+	// The enumeration is a sequence of calls in one process: it runs three times, under the three sync.Pool
+	// policies of the shim (the library is built with its sync import redirected: nothing retained / last
+	// put first / first put first), and between the passes every helper that takes a callback is called
+	// with callbacks that panic at their k-th invocation (recovered here): a helper's answer is a function
+	// of its arguments alone, whatever was called before and however an earlier call ended.
+	for pass := 0; pass < 3; pass++ {
+		vsched.PoolRetain = pass
+		if pass > 0 {
+			poison(r, &evals)
+		}
+		var in2 int64
+		ip := &inputs
+		if pass > 0 {
+			ip = &in2 // inputs are counted once
+		}
+		(&suite[int]{r: r, tname: "int", sym: func(i int) int { return i }, sentinel: 99, evals: &evals, inputs: ip, maxLen: maxLen, long: true}).run()
+		(&suite[string]{r: r, tname: "string", sym: func(i int) string { return []string{"a", "b", ""}[i] }, sentinel: "SENTINEL", evals: &evals, inputs: ip, maxLen: maxLen - 1}).run()
+		(&suite[rec]{r: r, tname: "struct", sym: func(i int) rec { return rec{i, strings.Repeat("x", i)} }, sentinel: rec{99, "S"}, evals: &evals, inputs: ip, maxLen: maxLen - 1}).run()
+		mapsAndNumbers(r, &evals, ip)
+	}
 	r.Cov["states"] = inputs
 	r.Cov["transitions"] = evals
 	r.Cov["traces_validated_against_impl"] = evals
